@@ -5,9 +5,9 @@ import os
 from . import refinterp as I
 from . import refparse as P
 from .common import WORK, Stats, Violation, collect, finish, hx, pmap, shim
-from .eng_debug import P49, P65, P66, P67, PROGRAMS
+from .eng_debug import P49, P65, P66, P67, PROGRAMS, push
 from .eng_exec import A20, HORIZON, ref_trace
-from .eng_optdiff import big, loop_program
+from .eng_optdiff import big, loop_program, push_value
 
 LINE_BOUND = 3000
 
@@ -174,17 +174,17 @@ def cuttings(cmds, max_cuts=None):
         yield lines
 
 
-NOISE = ['', 'help', 'abc 가나다 .']
+NOISE = ['', 'help', 'abc 가나다 .', 'exit', '  ']
 
 
-ALL_CUTTINGS_UPTO = 9
+ALL_CUTTINGS_UPTO = [9]
 
 
 def sessions_for(text):
     cmds = split_commands(text)
     whole = ' '.join(cmds)
     out = []
-    long_prog = len(cmds) > ALL_CUTTINGS_UPTO
+    long_prog = len(cmds) > ALL_CUTTINGS_UPTO[0]
     for lines in cuttings(cmds, 3 if long_prog else None):
         out.append(list(lines))
         if long_prog and len(lines) > 3:
@@ -280,6 +280,7 @@ def _task(t):
     return incr_task(*t[1:])
 
 
+WHITESPACE = ('whitespace-output', '%s 항. %s 항. %s 항.. %s 항. %s 항. %s 항..' % (P65, push(32), push(9), push_value(12288), P66, push(32)))
 LATE_RETURN = ('late-return', '형 형 형 형...♥ 흣. 형♡ 형.... 항...?♥ %s 항.' % P65)
 
 
@@ -298,9 +299,10 @@ def pair_sessions(progs):
 
 
 def run_c12(tier):
+    ALL_CUTTINGS_UPTO[0] = 9 if tier == 'quick' else 15
     st = Stats()
     tasks = []
-    progs = [p for p in PROGRAMS] + CROSS + [LATE_RETURN]
+    progs = [p for p in PROGRAMS] + CROSS + [LATE_RETURN, WHITESPACE]
     if tier != 'quick':
         progs += [('cross-loop9', loop_program(9) + ' 항.'),
                   ('enc-mid', '%s 항. %s 항.. %s 항. %s 항.' % (P65, P66, big(216, 256), P67))]
@@ -308,7 +310,7 @@ def run_c12(tier):
     for name, text in progs:
         ss = sessions_for(text)
         nc = len(split_commands(text))
-        info[name] = {'commands': nc, 'sessions': len(ss), 'cuttings': 'all' if nc <= ALL_CUTTINGS_UPTO else '<= 3 cut points'}
+        info[name] = {'commands': nc, 'sessions': len(ss), 'cuttings': 'all' if nc <= ALL_CUTTINGS_UPTO[0] else '<= 3 cut points'}
         for i in range(0, len(ss), 300):
             tasks.append(('sessions', name, ss[i:i + 300]))
     ps = pair_sessions(progs)
